@@ -265,8 +265,15 @@ def check(run, only=None):
     e3.run_parts(run, ['dispatcher'], only=only)
     run.notes.append('E3 (MIR symbolic execution): one level of the real dispatcher for every node kind incl. and / or, lists, maps, calls (node_* obligations)')
     from .. import arms
-    hs = gen(run, run.tier)
-    apre, ahs = arms.gen(run, run.tier, run.seed)
+    try:
+        hs = gen(run, run.tier)
+        apre, ahs = arms.gen(run, run.tier, run.seed)
+    except EncodingError as e:
+        # the source no longer has a shape the Kani harness generators understand; the MIR-level obligations above do not depend on it
+        run.notes.append(f"Kani harnesses not generated: {e}")
+        run.inconc("kani-harness-generation", str(e)[:300], mandatory=False)
+        run.assumptions += ["Kani part skipped (source shape not understood by the harness generator); decided by the E3 obligations only"]
+        return run.finish(rule=RULE)
     if run.tier == "quick":
         ahs = [h for h in ahs if h.quick]
     hs += ahs
